@@ -122,7 +122,15 @@ def c18_2(ctx):
     if t and t[0].handlers:
         r = [x for x in t[0].handlers[0].body if isinstance(x, ast.Return)]
         ctx.count(1)
-        if not r or N(r[0].value) != NS('args[0] if len(args) > 0 else kwargs[getargs(self.function)[0]]'):
+        direct = r and N(r[0].value) == NS('args[0] if len(args) > 0 else kwargs[getargs(self.function)[0]]')
+        via = False
+        if r and not direct and N(r[0].value) == NS('getcallarg(self.function, args, kwargs)'):
+            # the library's own selector: the first positional argument, else the keyword named like the first parameter
+            g = ctx.repo.fn('_inspect:getcallarg')
+            sp = [p for p in sym_paths(g) if p.term == 'return']
+            via = len(sp) == 2 and {p.text() for p in sp} == {'args[0]', NS('kwargs[getargs(function)[0]]')} and all(
+                (p.text() == 'args[0]') == any(pol for t_, pol, _ in p.atoms() if 'len(args)' in t_ or 'nonempty(args)' in t_) for p in sp)
+        if not (direct or via):
             ctx.fail(f, t[0], 'the fallback of try_back is not the first argument')
     # the aliases
     for name, val in (('try_nan', 'np.nan'), ('try_zero', '0'), ('try_true', 'True'), ('try_false', 'False')):
